@@ -25,6 +25,10 @@ import (
 //     exactly this key (table, columns, number, mode); no duplicate entries
 //   - Schema.String() re-parsed with the admin parser gives the same
 //     table, columns, derived columns, index modes/columns and foreign keys
+//   - the derived flags agree with the index list: some key is Primary,
+//     a key that is not Primary contains the columns of another key, a
+//     unique index marked ContainsKey contains the columns of a key (these
+//     flags decide which indexes get duplicate checks)
 //   - every index returns the same records as the first one, keys strictly
 //     increasing, rows ordered by the index columns
 func CheckMeta(rt *db19.ReadTran) (problems []string) {
@@ -72,6 +76,7 @@ func CheckMeta(rt *db19.ReadTran) (problems []string) {
 		if nkeys == 0 {
 			bad("%s has no key", ts.Table)
 		}
+		checkFlags(bad, ts)
 		ti := rt.GetInfo(ts.Table)
 		if ti == nil {
 			bad("%s has no Info", ts.Table)
@@ -234,4 +239,57 @@ func TableRecords(rt *db19.ReadTran) map[string][]string {
 		res[ms.Table] = recs
 	}
 	return res
+}
+
+// containsCols: every column of key occurs in cols (x covers x_lower! keys
+// the way the database defines it: x_lower! is covered by x_lower! or x).
+func containsCols(cols, key []string) bool {
+	for _, k := range key {
+		base := strings.TrimSuffix(k, "_lower!")
+		if !slices.Contains(cols, k) && !slices.Contains(cols, base) {
+			return false
+		}
+	}
+	return true
+}
+
+func checkFlags(bad func(string, ...any), ts *schema.Schema) {
+	nprimary := 0
+	for i := range ts.Indexes {
+		ix := &ts.Indexes[i]
+		switch ix.Mode {
+		case 'k':
+			if ix.Primary {
+				nprimary++
+				continue
+			}
+			covered := false
+			for j := range ts.Indexes {
+				o := &ts.Indexes[j]
+				if j != i && o.Mode == 'k' && containsCols(ix.Columns, o.Columns) {
+					covered = true
+				}
+			}
+			if !covered {
+				bad("%s %s is not marked Primary although it contains no other key (no duplicate check)", ts.Table, ixHead(ix))
+			}
+		case 'u':
+			if !ix.ContainsKey {
+				continue
+			}
+			covered := false
+			for j := range ts.Indexes {
+				o := &ts.Indexes[j]
+				if o.Mode == 'k' && containsCols(ix.Columns, o.Columns) {
+					covered = true
+				}
+			}
+			if !covered {
+				bad("%s %s is marked ContainsKey although it contains no key (no duplicate check)", ts.Table, ixHead(ix))
+			}
+		}
+	}
+	if nprimary == 0 && len(ts.Indexes) > 0 {
+		bad("%s has no Primary key", ts.Table)
+	}
 }
